@@ -577,4 +577,15 @@ theorem checkAll_split {W : World} {tbl : List (Site × List Cls)} {P : Prog} {o
   simp only [checkAll, Bool.and_eq_true] at h
   exact ⟨h.1.1, h.1.2, h.2⟩
 
+/-- a check of two lists at once is the conjunction of the two checks -/
+theorem checkOnly_append {W : World} {tbl : List (Site × List Cls)} {P : Prog} {a b : List (Site × List Cls)} :
+    checkOnly W tbl P (a ++ b) = true ↔ checkOnly W tbl P a = true ∧ checkOnly W tbl P b = true := by
+  simp only [checkOnly, List.all_append, Bool.and_eq_true]
+theorem checkNever_append {W : World} {tbl : List (Site × List Cls)} {P : Prog} {a b : List (Site × List Cls)} :
+    checkNever W tbl P (a ++ b) = true ↔ checkNever W tbl P a = true ∧ checkNever W tbl P b = true := by
+  simp only [checkNever, List.all_append, Bool.and_eq_true]
+theorem checkCan_append {W : World} {tbl : List (Site × List Cls)} {P : Prog} {a b : List (Site × Cls)} :
+    checkCan W tbl P (a ++ b) = true ↔ checkCan W tbl P a = true ∧ checkCan W tbl P b = true := by
+  simp only [checkCan, List.all_append, Bool.and_eq_true]
+
 end NfcVerif.ExcFlow
